@@ -43,6 +43,17 @@ CHECKS = {
          "tables are built through the real ingest with unique keys; `wrgl diff` CLI rendering not exercised",
          "TLA+ spec Diff.tla; TLC-enumerated table pairs replayed into pkg/diff; TLC trace validation (TraceDiff.tla)",
          "DESIGN.md 5/C04"),
+ "C16": ("pool", "model_checking",
+         "IngestPool.tla models producer, workers and caller of the inserter's pool one action per critical section; TLC explores every "
+         "interleaving (3 workers x 4 blocks x capacity 2, plus single store failures at four places) and checks MutualExclusion, NoLoss "
+         "(= one-worker table), ErrorReported, NoSendAfterClose and, under weak fairness, that the caller always returns; Pipes.tla does the "
+         "same for the differ -> mergeTables -> collector -> caller topology with its shared error channel; the pool model without the mutex "
+         "must violate NoLoss (self-test). Real 1..16-worker ingests (GOMAXPROCS 1/2/4/16, seeded sleeps inside the hooks, injected store "
+         "failures) are recorded through the verif hooks and validated by TLC against TracePool.tla; the diff scenario set is replayed under "
+         "seeded yields at every channel send; thorough adds race-detector runs.",
+         "real schedules are sampled, only the model's are exhaustive; worker ids / channel contents not logged",
+         "TLA+ specs IngestPool.tla, Pipes.tla (TLC, all interleavings + liveness); TLC trace validation (TracePool.tla) of hook-recorded real executions",
+         "DESIGN.md 5/C16"),
  "C19": ("ingest", "model_checking",
          "The sorter's design operators in Ingest.tla (sorted runs, k-way merge with the tie rule, dedupe against no previous key) are "
          "checked by TLC against the contract for every input of <=3 (quick) / <=4 (thorough) rows x 5 key shapes (composite keys whose first "
@@ -52,6 +63,16 @@ CHECKS = {
          "removed columns are never key columns; with duplicate keys either duplicate may survive in either output",
          "TLA+ spec Ingest.tla; TLC-enumerated scenarios replayed into pkg/sorter (both outputs)",
          "DESIGN.md 5/C19"),
+ "C06": ("wire", "model_checking",
+         "Wire.tla IS the on-disk / wire format: encoders and total decoders for string lists, uint lists, fields, times, commits, tables, "
+         "blocks, block indices, profiles and the packfile header as TLA+ operators over run-length bytes; TLC checks Fits(v) => Dec(Enc(v)) = v, "
+         "~Fits(v) => Err and injectivity on a universe with lengths 0/1/255/256/65534/65535/65536/70000, rows crossing 64 KiB, 0..3 parents, "
+         "awkward times, all header lengths 1..2^17 + boundaries + sampled 64-bit (16,021 quick / 590,472 thorough vectors) and exports "
+         "(value, bytes); for each vector the real writer must produce exactly those bytes, the real reader that value, Save* must store under "
+         "prefix + hash(canonical bytes) once, and values that do not fit must be refused with an error.",
+         "hash function and s2 compression trusted; times compared at the format's resolution; direct StrListEncoder.Encode (no error result) may panic as an assertion",
+         "TLA+ spec Wire.tla (the format definition, TLC-checked); TLC-generated vectors replayed into pkg/objects, pkg/encoding",
+         "DESIGN.md 5/C06"),
  "C11": ("graph", "model_checking",
          "Graph.tla defines ancestry, walks and the merge-base contract (AllowedBases) and transcribes the code's lock-step algorithm "
          "(SeekAsCoded); TLC enumerates all commit DAGs of 4 (quick) / 5 (thorough) commits x all clock assignments from {1,2,3} and exports "
